@@ -1,5 +1,5 @@
 #!/bin/bash
-# selftest/run.sh [all|seeds|seeds2|mutants|harmless] : must-fail corpus. Every seeded change (/verif/seeded/<ID>/patch.diff, written by
+# selftest/run.sh [all|seeds|seeds2|mutants|harmless|engine] : must-fail corpus. Every seeded change (/verif/seeded/<ID>/patch.diff, written by
 # independent sub-agents) and every mutant of selftest/expect.json is applied to a scratch worktree of /repo HEAD and the
 # checks of the expected properties must report a VIOLATION. Prints one line per patch; exit 1 if a patch is missed.
 # Not a MANIFEST check (engine development discipline). Evidence of the unchanged tree is not touched (KVC_REPO runs write scratch evidence).
@@ -53,5 +53,13 @@ for k,v in json.load(open('selftest/expect_pass.json')).items():
     out=$(./mutcheck.sh "selftest/$f" $props 2>&1)
     if echo "$out" | grep -q "exit=1"; then echo "FALSE-ALARM selftest/$f: $(echo "$out" | grep -E '^  failed' | head -2 | cut -c1-160)"; else echo "quiet   selftest/$f ($props)"; fi
   done
+fi
+if [ "$what" = all ] || [ "$what" = engine ]; then
+  # engine canary: a contract on a function that writes through its slice parameters must be REFUSED (kvc's
+  # slices are values; accepting it would prove facts about a copy) - see DESIGN addendum 2026-10-04
+  git -C /repo apply /verif/selftest/e_slice_param_write.diff
+  out=$(bin/kvc verify findAugmentingPath 2>&1)
+  git -C /repo checkout -- .
+  if echo "$out" | grep -q "CANNOT TRANSLATE.*slice parameter"; then echo "refused selftest/e_slice_param_write.diff (as it must be)"; else echo "MISSED  selftest/e_slice_param_write.diff: accepted a write through a slice parameter"; miss=1; fi
 fi
 exit $miss
